@@ -225,6 +225,19 @@ def make_program(rnd, n_pos, name="M0", module="simgen_m0", pyname=None, collide
             t.setdefault(g, []).append(nm)
             role = rnd.choice(["machine", "machine", "model", "L0"])
             prog["cbs"][f"{role}.{nm}"] = {"group": g, "sig": gen_sig(rnd, n_pos, collide and rnd.random() < 0.5)}
+    if rnd.random() < 0.3:
+        # guards combined in a boolean expression: each operand is bound by its own signature, exactly
+        # as when it is attached alone
+        t = rnd.choice(prog["trans"])
+        ops_ = []
+        for _ in range(2):
+            nm = f"g_{k}"
+            k += 1
+            role = rnd.choice(["machine", "machine", "model", "L0"])
+            prog["cbs"][f"{role}.{nm}"] = {"group": "cond", "sig": gen_sig(rnd, n_pos, collide and rnd.random() < 0.5)}
+            ops_.append(nm)
+        form = rnd.choice(["{a} or {b}", "{a} or {b}", "{a} and {b}", "not {a} or {b}", "{a} or not {b}"])
+        t.setdefault("cond", []).append(form.format(a=ops_[0], b=ops_[1]))
     for nm, g in names:
         if rnd.random() < 0.45:
             role = rnd.choice(["machine", "machine", "model", "L0"])
